@@ -64,6 +64,7 @@ func GenTargeted(seed int64, idx int, profile string) (GCase, bool) {
 		"slices":     {famSlices, famSlices},
 		"casefold":   {famCaseFlip, famCandidates},
 		"getters":    {famGetterShapes, famGetterShapes, famCandidates},
+		"runtime":    {famRuntime},
 		"generics":   {famGenerics, famImportNames},
 		"simple":     {famRefs},
 		"mixed":      {famNested, famPerMethodLists, famSharedHooks, famErrors, famSignatures, famImports, famMatching, famSlices, famRefs, famCaseFlip, famCandidates, famGetterShapes, famImportNames, famGenerics},
@@ -580,6 +581,12 @@ type D struct {
 	P    string
 }
 
+type MyInt int
+
+func (m MyInt) String() string { return "" }
+
+func (s *S) Num() (MyInt, error)          { return 0, nil }
+func atoiM(s string) (MyInt, error)       { return MyInt(len(s)), nil }
 func atoi(s string) (int, error)          { return len(s), nil }
 func atoiC(s string) (int, *FieldError)    { return len(s), nil }
 func plain(s string) int                  { return len(s) }
@@ -592,7 +599,9 @@ func postC(d *D, s *S) *FieldError        { return nil }
 	sb.WriteString("type Convergen interface {\n")
 	for j := 0; j < 1+t.r.Intn(3); j++ {
 		for _, l := range []string{":conv atoi A", ":conv atoi B", ":conv atoi In.X", ":conv atoi In.Y", ":conv plain A", ":map N() N", ":map Plain() P",
-			":preprocess pre", ":postprocess post", ":conv atoiC B", ":postprocess postC", ":map Concrete() N", ":getter"} {
+			":preprocess pre", ":postprocess post", ":conv atoiC B", ":postprocess postC", ":map Concrete() N", ":getter",
+			// error-returning calls whose value does not fit as it is: only a conversion / String() could make it fit
+			":typecast", ":stringer", ":conv atoi A N", ":conv atoi In.X P", ":map N() A", ":conv atoiM A B", ":map Num() N"} {
 			if t.ch(0.25) {
 				sb.WriteString("\t// " + l + "\n")
 			}
